@@ -87,9 +87,9 @@ def rand_table(r, nmax):
         tb["lon"] = [r.randint(-40, 40) for _ in range(n)]
     if r.random() < 0.12:
         tb["hastime"] = False        # the stream gets no time array: no windows possible
-    elif n >= 2 and r.random() < 0.2:
+    elif n >= 2 and r.random() < 0.3:
         # time stamps that repeat, or rows that are not in time order: a window is a set of rows, in original order
-        if r.random() < 0.5:
+        if r.random() < 0.4:
             for i in r.sample(range(1, n), max(1, n // 3)):
                 tb["t"][i] = tb["t"][i - 1]
         else:
@@ -117,6 +117,8 @@ def rand_config(r, tb, faults):
         return [{"win": [NA, NA], "entries": ents}]
     cuts = sorted(set([min(t)] + [r.choice(t) + r.choice([0, 0, 1, -1]) for _ in range(r.randint(0, 3))]))
     style = r.choice(["none", "partition", "partition", "holes", "overlap", "empty_first"])
+    if not increasing(tb) and r.random() < 0.6:
+        style = "wide"       # windows that keep most rows, so that rows out of time order stay together
     if style == "none":
         wins = [[NA, NA]]
     elif style == "partition":
@@ -125,6 +127,8 @@ def rand_config(r, tb, faults):
         r.shuffle(wins)
     elif style == "holes":
         wins = [[cuts[0], cuts[len(cuts) // 2]]] + ([[cuts[-1], NA]] if len(cuts) > 1 else [])
+    elif style == "wide":
+        wins = [[NA, max(t)], [max(t), NA]] if r.random() < 0.5 else [[min(t) + 1, NA], [NA, min(t) + 1]]
     elif style == "empty_first":
         wins = [[min(t), min(t)], [NA, NA]]
     else:
@@ -278,6 +282,11 @@ def check(ctx):
             # thorough: C05 visits every front end for every case; C06 / C18 rotate through them (4 resp. 6 per case)
             k = 4 if prop == "C06" else 6
             fes = [fes[(n + j) % len(fes)] for j in range(min(k, len(fes)))]
+        if not increasing(tb) and tb.get("hastime", True):
+            # rows out of time order / repeated or missing time stamps: each family of front ends sees such a table
+            for f in ("pandas", "xarray", "numpy_dict", "pandas_idx"):
+                if f in fe_all and pipe_exec.applicable(f, tb, cfg) and f not in fes:
+                    fes = fes + [f]
         if prop == "C05" and n % 5 == 2:
             # a legacy-style configuration that still carries input-named parameters: the stream's rows must win
             fes = [fes[0] + "+stale"] + fes[1:] if ctx.quick else fes + [f + "+stale" for f in fes]
